@@ -610,6 +610,12 @@ def scoping_cases():
         "nfe-name-not-outside": [var(("f", fn("me", [], [ret(un("typeof", id_("me")))]))), log("in", call(id_("f"))), expr(un("typeof", id_("me")))],
         "nfe-shadowed-by-param": [var(("f", fn("me", ["me"], [ret(id_("me"))]))), expr(call(id_("f"), num(3)))],
         "nfe-shadowed-by-var": [var(("f", fn("me", [], [var(("me", num(4))), ret(id_("me"))]))), expr(call(id_("f")))],
+        "nfe-var-read-before-assign": [var(("f", fn("me", [], [var(("t", un("typeof", id_("me")))), var(("me", num(4))), ret(arr(id_("t"), id_("me")))]))), expr(call(id_("f")))],
+        "nfe-param-own-name-missing": [var(("f", fn("me", ["me"], [ret(un("typeof", id_("me")))]))), expr(call(id_("f")))],
+        "nfe-inner-fdecl-own-name": [var(("f", fn("me", [], [fdecl("me", [], [ret(num(1))]), ret(arr(un("typeof", id_("me")), call(id_("me"))))]))), expr(call(id_("f")))],
+        "fdecl-var-own-name": [fdecl("f", [], [var(("t", un("typeof", id_("f")))), var("f"), ret(id_("t"))]), expr(call(id_("f")))],
+        "fdecl-var-own-name-with-others": [fdecl("f", [], [var(("a1", num(1))), var(("t", un("typeof", id_("f")))), var("f"), var(("z9", num(2))), ret(arr(id_("t"), bin_("+", id_("a1"), id_("z9"))))]), expr(call(id_("f")))],
+        "fdecl-own-name-in-closure": [fdecl("f", ["n"], [var(("g", fn(None, [], [ret(un("typeof", id_("f")))]))), ret(call(id_("g")))]), expr(call(id_("f"), num(1)))],
         "nfe-recursion-after-rebind": [var(("f", fn("me", ["n"], [ret(cond(bin_("<=", id_("n"), num(0)), num(0), bin_("+", num(1), call(id_("me"), bin_("-", id_("n"), num(1))))))]))),
                                        var(("g", id_("f"))), expr(assign(id_("f"), NULL)), expr(call(id_("g"), num(3)))],
         "param-default-undefined": [fdecl("f", ["a", "b"], [ret(arr(un("typeof", id_("a")), un("typeof", id_("b")), dot(id_("arguments"), "length")))]), expr(call(id_("f"), num(1)))],
